@@ -378,9 +378,14 @@ func (db *RockDB) SRem(ts int64, key []byte, args ...[]byte) (int64, error) {
 	var ek []byte
 
 	var num int64 = 0
+	// the same member may be given more than once, it is removed and counted once
+	lastIdx := lastOccurrenceIndexes(len(args), func(i int) []byte { return args[i] })
 	for i := 0; i < len(args); i++ {
 		if err := checkCollKFSize(key, args[i]); err != nil {
 			return 0, err
+		}
+		if lastIdx != nil && lastIdx[string(args[i])] != i {
+			continue
 		}
 
 		ek = sEncodeSetKey(table, rk, args[i])
